@@ -125,6 +125,11 @@ class SemantivaOrchestrator(ABC):
         resolved_spec: Sequence[dict[str, Any]] = pipeline_spec
         if canonical is None:
             canonical, resolved_spec = build_canonical_spec(pipeline_spec)
+        else:
+            # The caller's canonical spec (cached by Pipeline) is enriched below for this
+            # run's records; work on a copy so that later runs see the original spec.
+            canonical = dict(canonical)
+            canonical["nodes"] = [dict(n) for n in canonical.get("nodes", [])]
 
         run_id: str | None = None
         pipeline_id: str | None = None
